@@ -18,6 +18,7 @@
 (*   12   Qfixed predicate with the float literal 1.0   13 Qchar predicate   *)
 (*   14   parameterised by a LIST consumed by sum / any (folded by the ast    *)
 (*        rewriter at bind time: binding twice must not see the first fold)  *)
+(*   15   named "Tuple"       16 takes a Tuple[bool, bool] argument          *)
 (***************************************************************************)
 EXTENDS Integers, Sequences, FiniteSets, TLC, Json
 
@@ -25,7 +26,7 @@ CONSTANTS MaxLen, MaxLive, Progs
 VARIABLES live, hist
 
 Pred1 == {1, 2, 10, 5 + 100}     \* single-argument predicates (105: never a program; keeps the set a set of ints)
-Kind(p) == CASE p \in {1, 2, 10} -> "pred" [] p \in {3, 8, 9} -> "fun" [] p = 4 -> "caller" [] p \in {5, 6, 11, 12, 13} -> "bool2"
+Kind(p) == CASE p \in {1, 2, 10} -> "pred" [] p \in {3, 8, 9} -> "fun" [] p = 4 -> "caller" [] p \in {5, 6, 11, 12, 13, 15, 16} -> "bool2"
              [] p \in {7, 14} -> "param"
 
 Obj(k, term) == [k |-> k, term |-> term]
